@@ -150,8 +150,11 @@ def _do_event(w, ev, model, cfg, rec):
         elif kind == 'utxos_update':
             rec.clear()
             w.utxos_update()
+            # the rescan covers the default account: outputs of other accounts are not touched
+            scanned = set(k.address for k in w.keys() if k.account_id == w.default_account_id or w.scheme == 'single')
             for v in model.out.values():
-                v['spent'] = True
+                if v['address'] in scanned:
+                    v['spent'] = True
             consumed = set()
             for t in model.txs:
                 consumed.update(t['inputs'])
@@ -455,6 +458,11 @@ def run(ctx):
         cfgs.append({'kind': 'hd', 'wt': 'legacy', 'seed': seed, 'events': ev_pick + [['send_ext'], ['utxos_update']],
                      'prefix': fund3 + [['utxo_add_n', 'last', 30000, 'Q', 2]]})
         cfgs.append({'kind': 'ms22', 'wt': 'segwit', 'seed': seed, 'events': ev_pick, 'prefix': fund3})
+    # multisig wallets whose transactions spend outputs of two different keys (stored with the scripts of both)
+    for kind, wt in ([('ms22', 'legacy')] if q else [('ms22', 'legacy'), ('ms23', 'p2sh-segwit'), ('ms22', 'segwit')]):
+        cfgs.append({'kind': kind, 'wt': wt, 'seed': seed,
+                     'prefix': [['utxo_add', 'first', 100000], ['new_key'], ['utxo_add', 'last', 70000]],
+                     'events': [['sweep'], ['send_ext'], ['reopen']] + ([] if q else [['delete_last'], ['send_own']])})
     # two accounts whose funded keys interleave in creation order
     cfgs.append({'kind': 'hd', 'wt': 'segwit', 'seed': seed, 'prefix': [['utxo_add', 'first', 5000]],
                  'events': [['fund_account1'], ['new_key'], ['utxo_add', 'last', 70000], ['send_ext'], ['reopen']] +
